@@ -3,6 +3,7 @@ package rules
 import (
 	"fmt"
 	"go/token"
+	"go/types"
 
 	"fpcheck/internal/core"
 
@@ -415,8 +416,10 @@ func c11subscribe(c *core.Ctx, ds, doEffect *ssa.Function) {
 	doOb := ob.body
 	obParent := ob.mc.Parent()
 	sub := c11findClo(p, obParent, delivers)
-	if sub == nil && ob.thin != nil {
-		sub = c11findClo(p, ob.body, delivers) // the delivery closure is built inside the helper the observe closure defers to
+	if sub == nil {
+		// the delivery closure is built inside the observe closure (next to the result it delivers), or inside the helper
+		// that closure defers to
+		sub = c11findClo(p, ob.body, delivers)
 	}
 	if sub == nil {
 		c.Unknown("R3", "doSubscribe/closures", p.Pos(ds.Pos()), "expected one closure evaluating the effect and one calling OnNext")
@@ -673,6 +676,37 @@ func c11handlerNames(p *core.Prog, ds *ssa.Function, setter string) map[string]b
 		}
 		if all {
 			out[prm.Name()] = true
+		}
+		// the handlers bundled into a value struct parameter: field k of the bundle gets the setter's field at every call
+		if st, isSt := prm.Type().Underlying().(*types.Struct); isSt {
+			for k := 0; k < st.NumFields(); k++ {
+				allK := true
+				for _, s := range sites {
+					call, ok := s.Instr.(*ssa.Call)
+					if !ok || i >= len(call.Call.Args) {
+						allK = false
+						break
+					}
+					lit := c16lit(call.Call.Args[i])
+					if lit == nil || lit[k] == nil {
+						allK = false
+						break
+					}
+					ld, isLoad := core.Resolve(lit[k]).(*ssa.UnOp)
+					if !isLoad {
+						allK = false
+						break
+					}
+					f2, isFA := ld.X.(*ssa.FieldAddr)
+					if !isFA || core.FieldName(f2.X.Type(), f2.Field) != field {
+						allK = false
+						break
+					}
+				}
+				if allK {
+					out[prm.Name()+"."+st.Field(k).Name()] = true
+				}
+			}
 		}
 	}
 	return out
